@@ -1228,6 +1228,11 @@ class MetaModel(object):
         source_metaclass = self.find_metaclass(source_kind)
         target_metaclass = self.find_metaclass(target_kind)
 
+        if len(source_keys) != len(target_keys):
+            raise MetaModelException('%s has %d referential but %d identifying '
+                                     'attributes' % (rel_id, len(source_keys),
+                                                     len(target_keys)))
+        
         for name in target_keys:
             if name.upper() not in [attr.upper() for attr in 
                                     target_metaclass.attribute_names]:
